@@ -215,10 +215,26 @@ def subj_kpcovr(b, kind, pattern):
     pdim = rng.randint(1, 2)
     kmax = min(XA["shape"][0], XB["shape"][0]) - 2
     solver = rng.choice(["full", "full", "auto", "arpack", "randomized"])
-    kern = rng.choice(["linear", "rbf"])
+    kern = rng.choice(["linear", "rbf", "precomputed"])
     p = {"mixing": rng.choice([0.1, 0.5, 0.9]), "n_components": rng.randint(1, max(1, min(kmax, 3))), "svd_solver": solver, "kernel": kern}
     if kern == "rbf":
         p["gamma"] = rng.choice([0.1, 0.5, 1.0])
+    if kern == "precomputed":
+        # the caller computes the kernels: train-train for fit, test-train for the reads
+        k0 = rng.choice(["linear", "rbf"])
+        if solver in ("arpack", "randomized"):
+            p["random_state"] = rng.randrange(1000) if (pattern == "repeat" or rng.random() < 0.6) else None
+        if rng.random() < 0.5:
+            p["center"] = True
+        KA = {"kind": "gram", "base": _strip(XA), "kernel": k0}
+        KB = {"kind": "gram", "base": _strip(XB), "kernel": k0}
+        fitA = {"X": b.ref(KA, "kernel"), "Y": b.ref(b.y_of(XA, pdim, squeeze=False), "target")}
+        fitB = {"X": b.ref(KB, "kernel"), "Y": b.ref(b.y_of(XB, pdim, squeeze=False), "target")}
+        XT = b.X(rng.randint(1, 6), XB["shape"][1], ["gauss"])
+        KT = b.ref({"kind": "cross", "a": _strip(XT), "b": _strip(XB), "kernel": k0}, "kernel")
+        reads = [("transform", {"X": KT}), ("predict", {"X": KT}), ("transform", {"X": "$LASTX"}), ("predict", {"X": "$LASTX"})]
+        rep = not (solver in ("arpack", "randomized") and p.get("random_state") is None)
+        return dict(params=p, fitA=fitA, fitB=fitB, reads=reads, envs=["rng_always"], repeatable=rep, fit_transform=False, ykey="Y")
     if solver in ("arpack", "randomized"):
         p["random_state"] = rng.randrange(1000) if (pattern == "repeat" or rng.random() < 0.6) else None
     if rng.random() < 0.4:
